@@ -144,6 +144,10 @@ pub struct Rec {
     /// results that must agree across ISAs: key -> (bits, is_nan)
     pub agree: BTreeMap<String, (u64, bool, String)>,
     pub panics: BTreeMap<String, String>,
+    /// when true, results the definition leaves open are not recorded for
+    /// cross-ISA comparison (used by the large lattice sweeps; the alphabet
+    /// task records the same input classes)
+    pub skip_open: bool,
 }
 
 impl Rec {
@@ -179,7 +183,7 @@ impl Rec {
             );
             self.fail(sig, case, detail);
         }
-        if exp.needs_agreement() {
+        if exp.needs_agreement() && !self.skip_open {
             let ins: Vec<String> = inputs.iter().map(|v| v.show()).collect();
             let key = format!("{ty}::{op}({})", ins.join(", "));
             self.agree.entry(key).or_insert((got.bits(), got.is_nan_lane(), got.show()));
@@ -258,15 +262,19 @@ pub fn i32_alphabet() -> Vec<i32> {
 pub fn partners16(n: usize) -> Vec<u16> {
     let mut v: Vec<u16> = vec![0, 1, 2, 3, 7, 8, 15, 16, 127, 128, 129, 255, 256, 257, 0x7ffe, 0x7fff, 0x8000, 0x8001, 0xfffe, 0xffff,
         0x5555, 0xaaaa, 0x00ff, 0xff00, 0x0f0f, 0xf0f0, 0x1234, 0xfedc, 0x4000, 0xc000, 0x3fff, 0xbfff];
-    // fill up with an arithmetic progression so that every residue class is hit
-    let mut x: u32 = 0x9e37;
-    while v.len() < n {
-        let c = (x & 0xffff) as u16;
-        if !v.contains(&c) {
+    // fill up with k * 0x9e37 mod 2^16 (odd multiplier: a permutation of all 16-bit values)
+    let mut seen = vec![false; 65536];
+    for x in &v {
+        seen[*x as usize] = true;
+    }
+    let mut k: u32 = 1;
+    while v.len() < n.min(65536) {
+        let c = (k.wrapping_mul(0x9e37) & 0xffff) as u16;
+        if !seen[c as usize] {
+            seen[c as usize] = true;
             v.push(c);
         }
-        x = x.wrapping_mul(0x6f4f).wrapping_add(0x3039) & 0xffff_ffff;
-        x ^= x >> 7;
+        k += 1;
     }
     v.truncate(n);
     v
